@@ -625,6 +625,26 @@ pub fn build_lib() -> Lib {
 pub struct Work {
     pub dir: PathBuf,
     pub world: World,
+    root: std::fs::File,
+    root_len: std::cell::Cell<usize>,
+}
+
+impl Work {
+    /// Rewrites the root file. To keep the per-case cost at one `pwrite`, the
+    /// file is padded with empty lines to a multiple of 256 octets (empty
+    /// lines denote nothing) and only truncated when that size changes.
+    pub fn write_root(&self, content: &[u8]) {
+        use std::os::unix::fs::FileExt;
+        let padded = (content.len() / 256 + 1) * 256;
+        let mut buf = Vec::with_capacity(padded);
+        buf.extend_from_slice(content);
+        buf.resize(padded, b'\n');
+        if self.root_len.get() != padded {
+            self.root.set_len(padded as u64).expect("truncate root file");
+            self.root_len.set(padded);
+        }
+        self.root.write_all_at(&buf, 0).expect("write root file");
+    }
 }
 
 thread_local! {
@@ -658,7 +678,8 @@ fn work(lib: &Lib) -> Rc<Work> {
                 write_file(&f);
                 world.add(f);
             }
-            *w = Some(Rc::new(Work { dir, world }));
+            let root = std::fs::OpenOptions::new().create(true).truncate(true).read(true).write(true).open(dir.join("root.zone")).expect("create root file");
+            *w = Some(Rc::new(Work { dir, world, root, root_len: std::cell::Cell::new(0) }));
         }
         w.as_ref().unwrap().clone()
     })
@@ -685,7 +706,7 @@ fn run_case(l: &mut Local, watch: &Watch, wk: &Work, lib: &Lib, extra: Option<&F
     let bytes = render_file(&root);
     l.tick();
     watch.enter("json", hang_json(case, &bytes, wk, lib).as_bytes());
-    std::fs::write(&root.store, &bytes).expect("write root file");
+    wk.write_root(&bytes);
     let obs = observe(&root.store, case.max_depth);
     let mut mism = compare(&exp, &obs);
     // the statement's own relation, where it can be written down
@@ -767,18 +788,24 @@ fn case_json(case: &Case, env: &Env, exp: &Expected, obs: &Result<Observed, Stri
 
 #[derive(Clone)]
 enum Unit {
-    S1 { preamble: bool, pre: usize, origin: usize },
-    S2 { preamble: bool, pre: usize, o1: usize, l1: usize },
-    S3 { preamble: bool, pre: usize, origin: usize, mid_from: usize, mid_to: usize },
+    /// root = preamble ++ pre ++ [include leaf (origin)] ++ post, for every
+    /// leaf in `leaves` and every post in bodies(post_len)
+    S1 { preamble: usize, pre: Vec<It>, origin: usize, leaves: Vec<usize>, post_len: usize },
+    /// root = preamble ++ pre ++ [include l1 (o1)] ++ mid ++ [include l2 (o2)] ++ post
+    S2 { preamble: usize, pre: Vec<It>, o1: usize, l1: usize, l2s: Vec<usize>, post_len: usize },
+    /// root = preamble ++ pre ++ [include mid-file (origin)] ++ post
+    S3 { preamble: usize, pre: Vec<It>, origins: Vec<usize>, mids: Vec<usize>, post_len: usize },
     Paths { p1: usize },
     Depth,
 }
 
-fn preamble_items(on: bool) -> Vec<It> {
-    if on {
-        vec![It::Origin(Nm::Abs("e.".into())), It::Rec { owner: Own::Rel("z".into()), ttl: Some(4), class: Some(1) }]
-    } else {
-        vec![]
+/// Root context before the enumerated items: 0 nothing, 1 origin only,
+/// 2 origin + a record (owner, TTL and class known).
+fn preamble_items(kind: usize) -> Vec<It> {
+    match kind {
+        0 => vec![],
+        1 => vec![It::Origin(Nm::Abs("e.".into()))],
+        _ => vec![It::Origin(Nm::Abs("e.".into())), It::Rec { owner: Own::Rel("z".into()), ttl: Some(4), class: Some(1) }],
     }
 }
 
@@ -835,30 +862,58 @@ pub fn run(ctx: &'static Ctx) -> ! {
     ctx.set_extra("library_files", json!(lib.world.files.len()));
     let b2 = bodies(2);
     let b1 = bodies(1);
+    let by_len = |n: usize| if n >= 2 { &b2 } else { &b1 };
     let orig = origins();
-    // which leaves / mids each tier uses
-    let leaf_positions: Vec<usize> = if quick { (0..b1.len()).chain(lib.n_plain_leaves..lib.leaves.len()).collect() } else { (0..lib.leaves.len()).collect() };
-    let mid_positions: Vec<usize> = (0..lib.mids.len()).filter(|m| leaf_positions.contains(&lib.mids[*m].1)).collect();
-    let posts_s1: &Vec<Vec<It>> = &b2;
-    let pres_s1: &Vec<Vec<It>> = &b2;
+    // leaf positions: [0, 7) bodies of <= 1 item, [0, 43) bodies of <= 2
+    // items, [43, ..) the special bodies (syntax error, no final newline, ...)
+    let lp_small: Vec<usize> = (0..b1.len()).collect();
+    let lp_special: Vec<usize> = (lib.n_plain_leaves..lib.leaves.len()).collect();
+    let lp_all: Vec<usize> = (0..lib.leaves.len()).collect();
+    let lp_quick: Vec<usize> = lp_small.iter().chain(lp_special.iter()).copied().collect();
+    let mids_with = |lps: &Vec<usize>| -> Vec<usize> { (0..lib.mids.len()).filter(|m| lps.contains(&lib.mids[*m].1)).collect() };
+    let all_origins: Vec<usize> = (0..orig.len()).collect();
     let mut units: Vec<Unit> = Vec::new();
-    for preamble in [false, true] {
-        for pre in 0..pres_s1.len() {
+    let chunked = |v: Vec<usize>, n: usize| -> Vec<Vec<usize>> { v.chunks(n).map(|c| c.to_vec()).collect() };
+    for preamble in [0usize, 1, 2] {
+        // S1
+        for pre in &b2 {
             for origin in 0..orig.len() {
-                units.push(Unit::S1 { preamble, pre, origin });
+                units.push(Unit::S1 { preamble, pre: pre.clone(), origin, leaves: if quick { lp_quick.clone() } else { lp_all.clone() }, post_len: 2 });
             }
         }
-        for pre in 0..b1.len() {
+        if preamble == 0 {
+            continue; // without any context most S2/S3 roots fail at their first item
+        }
+        for pre in &b1 {
+            // S2
             for o1 in 0..orig.len() {
-                for l1 in 0..leaf_positions.len() {
-                    units.push(Unit::S2 { preamble, pre, o1, l1 });
+                if quick {
+                    for l1 in &lp_small {
+                        units.push(Unit::S2 { preamble, pre: pre.clone(), o1, l1: *l1, l2s: lp_small.clone(), post_len: 1 });
+                    }
+                } else {
+                    for l1 in &lp_all {
+                        units.push(Unit::S2 { preamble, pre: pre.clone(), o1, l1: *l1, l2s: lp_quick.clone(), post_len: 1 });
+                    }
+                    for l1 in &lp_small {
+                        units.push(Unit::S2 { preamble, pre: pre.clone(), o1, l1: *l1, l2s: lp_small.clone(), post_len: 2 });
+                    }
                 }
-                let chunk = 64;
-                let mut from = 0;
-                while from < mid_positions.len() {
-                    let to = (from + chunk).min(mid_positions.len());
-                    units.push(Unit::S3 { preamble, pre, origin: o1, mid_from: from, mid_to: to });
-                    from = to;
+            }
+            // S3
+            if quick {
+                for c in chunked(mids_with(&lp_small), 49) {
+                    units.push(Unit::S3 { preamble, pre: pre.clone(), origins: all_origins.clone(), mids: c, post_len: 1 });
+                }
+                for c in chunked(mids_with(&lp_special), 98) {
+                    units.push(Unit::S3 { preamble, pre: pre.clone(), origins: vec![0], mids: c, post_len: 1 });
+                }
+            } else {
+                for c in chunked(mids_with(&lp_all), 49) {
+                    units.push(Unit::S3 { preamble, pre: pre.clone(), origins: all_origins.clone(), mids: c, post_len: 1 });
+                }
+                for c in chunked(mids_with(&lp_quick), 21) {
+                    units.push(Unit::S3 { preamble, pre: pre.clone(), origins: all_origins.clone(), mids: c, post_len: 2 });
                 }
             }
         }
@@ -877,26 +932,25 @@ pub fn run(ctx: &'static Ctx) -> ! {
     ctx.par_for_each(&units, |l, u| {
         let wk = work(&lib);
         match u {
-            Unit::S1 { preamble, pre, origin } => {
-                for lp in &leaf_positions {
-                    for post in posts_s1 {
+            Unit::S1 { preamble, pre, origin, leaves, post_len } => {
+                for lp in leaves {
+                    for post in by_len(*post_len) {
                         let mut body = preamble_items(*preamble);
-                        body.extend(pres_s1[*pre].iter().cloned());
+                        body.extend(pre.iter().cloned());
                         body.push(inc(&leaf_ref(*lp), orig[*origin].clone()));
                         body.extend(post.iter().cloned());
                         run_case(l, watch, &wk, &lib, None, &Case { fam: "flow/S1", root_body: body, max_depth: 1 });
                     }
                 }
             }
-            Unit::S2 { preamble, pre, o1, l1 } => {
-                let posts = if quick { &b1 } else { &b2 };
+            Unit::S2 { preamble, pre, o1, l1, l2s, post_len } => {
                 for mid in &b1 {
                     for o2 in &orig {
-                        for l2 in &leaf_positions {
-                            for post in posts {
+                        for l2 in l2s {
+                            for post in by_len(*post_len) {
                                 let mut body = preamble_items(*preamble);
-                                body.extend(b1[*pre].iter().cloned());
-                                body.push(inc(&leaf_ref(leaf_positions[*l1]), orig[*o1].clone()));
+                                body.extend(pre.iter().cloned());
+                                body.push(inc(&leaf_ref(*l1), orig[*o1].clone()));
                                 body.extend(mid.iter().cloned());
                                 body.push(inc(&leaf_ref(*l2), o2.clone()));
                                 body.extend(post.iter().cloned());
@@ -906,17 +960,18 @@ pub fn run(ctx: &'static Ctx) -> ! {
                     }
                 }
             }
-            Unit::S3 { preamble, pre, origin, mid_from, mid_to } => {
-                let posts = if quick { &b1 } else { &b2 };
-                for mp in &mid_positions[*mid_from..*mid_to] {
+            Unit::S3 { preamble, pre, origins, mids, post_len } => {
+                for mp in mids {
                     let mf = &lib.world.files[lib.mids[*mp].0];
                     let mref = format!("../{lib_name}/{}", mf.store.file_name().unwrap().to_str().unwrap());
-                    for post in posts {
-                        let mut body = preamble_items(*preamble);
-                        body.extend(b1[*pre].iter().cloned());
-                        body.push(inc(&mref, orig[*origin].clone()));
-                        body.extend(post.iter().cloned());
-                        run_case(l, watch, &wk, &lib, None, &Case { fam: "flow/S3", root_body: body, max_depth: 2 });
+                    for origin in origins {
+                        for post in by_len(*post_len) {
+                            let mut body = preamble_items(*preamble);
+                            body.extend(pre.iter().cloned());
+                            body.push(inc(&mref, orig[*origin].clone()));
+                            body.extend(post.iter().cloned());
+                            run_case(l, watch, &wk, &lib, None, &Case { fam: "flow/S3", root_body: body, max_depth: 2 });
+                        }
                     }
                 }
             }
